@@ -153,7 +153,11 @@ fn strings_of(t: &JT, out: &mut Vec<String>) {
 fn yaml11_safe(t: &JT) -> bool {
     let mut ss = Vec::new();
     strings_of(t, &mut ss);
-    ss.iter().all(|s| !s.chars().any(|c| c == '\n' || c == '\u{2028}' || c == '\u{2029}' || c == '\u{85}' || c == '\u{fffe}' || c == '\u{ffff}' || ((c as u32) < 0x20 && c != '\t') || c == '\u{7f}' || ('\u{80}'..='\u{9f}').contains(&c)))
+    // YAML 1.1 (PyYAML) treats U+0085, U+2028 and U+2029 as line breaks, YAML 1.2 does not: those
+    // are the only characters on which the two versions read a quoted scalar differently.
+    // (Characters that neither version allows unescaped - C0/C1 controls, DEL, U+FFFE, U+FFFF -
+    // are NOT excluded: the emitter has to escape them.)
+    ss.iter().all(|s| !s.chars().any(|c| c == '\n' || c == '\u{2028}' || c == '\u{2029}' || c == '\u{85}'))
 }
 
 struct Pending {
@@ -282,6 +286,12 @@ fn check_value<'p>(p: &mut Program<'p>, t: &JT, rep: &mut Report, queue: &mut Ve
             queue_str(&format!("std.manifestYamlDoc(indent_array_in_object={iaio}, quote_keys={qk})"), format!("std.manifestYamlDoc({v}, {iaio}, {qk})"), "yaml", t.clone(), false, p, rep);
         }
         queue_str("std.manifestYamlStream", format!("std.manifestYamlStream([{v}, {v}], false, true, true)"), "yaml", JT::Arr(vec![t.clone(), t.clone()]), true, p, rep);
+        queue_str("std.manifestYamlStream(one document)", format!("std.manifestYamlStream([{v}], false, false, true)"), "yaml", JT::Arr(vec![t.clone()]), true, p, rep);
+        if matches!(t, JT::Null) {
+            // the stream of no documents
+            queue_str("std.manifestYamlStream(no document)", "std.manifestYamlStream([], false, true, true)".to_string(), "yaml", JT::Arr(vec![]), true, p, rep);
+            queue_str("std.manifestYamlStream(no document)", "std.manifestYamlStream([], false, false, false)".to_string(), "yaml", JT::Arr(vec![]), true, p, rep);
+        }
     }
     // own YAML reader on every value (strings without line breaks)
     let mut ss = Vec::new();
@@ -290,7 +300,8 @@ fn check_value<'p>(p: &mut Program<'p>, t: &JT, rep: &mut Report, queue: &mut Ve
         let o = eval(p, &format!("local v = {v}; std.parseYaml(std.manifestYamlDoc(v, quote_keys=true)) == v"), false);
         rep.evaluations += 1;
         if o != Outcome::Value("true".into()) {
-            rep.violation("C05/yaml/std.parseYaml-roundtrip", format!("parseYaml(manifestYamlDoc(v)) != v for v = {}: {}", util::truncate(&v, 200), o.short()), json!({"type":"emit","source":v}));
+            let long_key = ss.iter().any(|s| s.chars().count() >= 1022);
+            rep.violation(if long_key { "C05/yaml/implicit-key-longer-than-1024" } else { "C05/yaml/std.parseYaml-roundtrip" }, format!("parseYaml(manifestYamlDoc(v)) != v for v = {}: {}", util::truncate(&v, 200), o.short()), json!({"type":"emit","source":v}));
         }
     }
 }
@@ -308,10 +319,12 @@ fn flush(queue: &mut Vec<Pending>, rep: &mut Report) {
         let lang = match q.op { "pyliteral" => "python", "toml" => "toml", _ => "yaml" };
         match a.get("v").and_then(from_oracle) {
             Some(got) if eq_numeric(&got, &q.expect) => rep.outcome(&format!("{lang}-roundtrip-ok")),
-            Some(got) => rep.violation(format!("C05/{lang}/decodes-to-different-value"), format!("{} emits {:?} which its language's parser decodes to {}, expected {}", q.src, util::truncate(&q.text, 300), util::truncate(&got.show(), 200), util::truncate(&q.expect.show(), 200)), case),
+            Some(got) => rep.violation(if q.what.contains("(no document)") { "C05/yaml/empty-stream-decodes-to-one-null-document".to_string() } else { format!("C05/{lang}/decodes-to-different-value") }, format!("{} emits {:?} which its language's parser decodes to {}, expected {}", q.src, util::truncate(&q.text, 300), util::truncate(&got.show(), 200), util::truncate(&q.expect.show(), 200)), case),
             None => {
                 let raw_ctl = q.text.chars().any(|c| ((c as u32) < 0x20 && !matches!(c, '\n' | ' ' | '\t')) );
-                let sig = if raw_ctl { "C05/raw-control-char-in-output".to_string() } else { format!("C05/{lang}/not-parseable") };
+                // a YAML implicit key may not be longer than 1024 characters (YAML 1.2 §7.4.2)
+                let long_key = lang == "yaml" && q.text.lines().any(|l| l.find("\": ").or_else(|| l.find(": ")).or_else(|| l.strip_suffix(':').map(|x| x.len())).is_some_and(|pos| l.trim_start()[..pos.saturating_sub(l.len() - l.trim_start().len())].chars().count() >= 1024));
+                let sig = if raw_ctl { "C05/raw-control-char-in-output".to_string() } else if long_key { "C05/yaml/implicit-key-longer-than-1024".to_string() } else { format!("C05/{lang}/not-parseable") };
                 rep.violation(sig, format!("{} emits {:?} which its language's parser rejects: {}", util::truncate(&q.src, 200), util::truncate(&q.text, 300), a), case)
             }
         }
@@ -596,6 +609,12 @@ pub fn run(ctx: &Ctx) -> i32 {
         for k2 in special_keys.iter().take(6) {
             vals.push(o(vec![(k, o(vec![(*k2, inner())])), ("z", one())]));
         }
+    }
+    // key lengths around the 1024-character limit of YAML implicit keys; empty document stream
+    for n in [1022usize, 1023, 1024, 1025, 1026, 2000] {
+        vals.push(o(vec![(&"k".repeat(n), one())]));
+        vals.push(o(vec![(&format!("{} z", "k".repeat(n - 2)), JT::Arr(vec![one()]))]));
+        vals.push(o(vec![("o", o(vec![(&"é".repeat(n), one())]))]));
     }
     total.extra.insert("key_placement_trees".into(), json!(vals.len() - before));
     let r = util::par_forked(&cfg, 128, |sh| value_sweep(&vals, sh));
